@@ -85,6 +85,9 @@ func c03Gen(t *rapid.T) c03Scenario {
 	for i, n := 0, rapid.SampledFrom([]int{0, 0, 1, 1, 2}).Draw(t, "nfaults"); i < n; i++ {
 		sc.Faults[rapid.SampledFrom(c03FaultKeys).Draw(t, "faultkey")] = rapid.SampledFrom([]string{"T", "P", "U"}).Draw(t, "faultclass")
 	}
+	if sc.Modifier && rapid.Bool().Draw(t, "rewrite") {
+		sc.Faults["mod:m1/rewrite"] = "on" // the modifier rewrites every recipient to an alias in the same domain
+	}
 	// state-aware command sequence
 	state := "init"
 	n := rapid.IntRange(2, 14).Draw(t, "nsteps")
@@ -629,6 +632,13 @@ func c03Run(sc c03Scenario) (vs []ev.V) {
 	}
 	dialog := strings.Join(res.Log, "\n")
 	events := rec.Snapshot()
+	// the scripted modifier may rewrite recipients to <local>+alias@<domain>: the targets are compared with
+	// what the client supplied under the supplied spelling
+	for i := range events {
+		if events[i].Op == "rcpt" || events[i].Op == "status" {
+			events[i].Arg = strings.Replace(events[i].Arg, "+alias@", "@", 1)
+		}
+	}
 	// (a) typestate
 	for _, p := range rec.Problems {
 		sig := "typestate:closed-twice"
@@ -974,5 +984,5 @@ func TestVerifC03(t *testing.T) {
 		"by the end of the session, nothing after it), final 2xx => every accepted recipient committed to each of its targets, failure without a commit attempt => nothing committed, LMTP per-recipient replies " +
 		"vs that recipient's target, abandoned transactions never committed, N permits acquirable per configured scope afterwards, reply codes coherent. " +
 		"Non-trivial = a transaction accepted a recipient and (a fault was injected, or it ended by RSET/MAIL/disconnect/failed DATA). Distinct = distinct scenario.")
-	ev.Run(t, r, ev.Spec[c03Scenario]{Name: "sessions", N: r.N, Gen: c03Gen, Run: c03Run, Info: c03Info})
+	ev.Run(t, r, ev.Spec[c03Scenario]{Name: "sessions", Journal: true, N: r.N, Gen: c03Gen, Run: c03Run, Info: c03Info})
 }
